@@ -141,6 +141,13 @@ func NewPositionRange(lines []string, val *yaml.Node, minColumn int) (offsets Po
 	}
 
 END:
+	if len(offsets) == 0 {
+		// The value couldn't be found in the source (for example it's written
+		// using escape sequences), point at where the YAML node starts.
+		return PositionRanges{
+			{Line: val.Line, FirstColumn: val.Column, LastColumn: val.Column},
+		}
+	}
 	return offsets
 }
 
